@@ -4,6 +4,7 @@ import (
 	"fmt"
 	"sync"
 
+	"github.com/meshplus/bitxhub-core/validator"
 	"github.com/meshplus/bitxhub-kit/types"
 	"github.com/meshplus/bitxhub-model/constant"
 	"github.com/meshplus/bitxhub-model/pb"
@@ -169,6 +170,18 @@ func TrafficWorld(audit bool) *Template {
 		r := w.Block(w.RegisterServiceTx(ChainAdmins["chainC"], "chainC", "open1", true, ""))[0]
 		mustOK(r, "open proposal")
 		data["openProposal"] = ProposalID(r)
+		// chainD: registered with two admins, a second (bindable) rule, then an approved update that drops the second
+		// admin - a chain whose admin set changed after registration
+		d1, d2 := KeyFor("chainD-admin-1"), KeyFor("chainD-admin-2")
+		w.Fund("1000000000000000000", d1, d2)
+		vote(w.Block(w.BVM(d1, constant.AppchainMgrContractAddr, "RegisterAppchain",
+			pb.String("chainD"), pb.String("name-chainD"), pb.Bytes(nil), pb.String("ETH"), pb.Bytes(nil),
+			pb.String("broker"), pb.String("desc"), pb.String(validator.HappyRuleAddr), pb.String(""), pb.String(d1.Addr.String()+","+d2.Addr.String()), pb.String("reason")))[0], "register chainD", true)
+		dr := w.Block(DeployTx(d1, w.Nonces.Next(d1), w.TS+1, RuleWasm()))[0]
+		mustOK(dr, "deploy rule for chainD")
+		data["chainD-rule"] = types.NewAddress(dr.Ret).String()
+		mustOK(w.Block(w.BVM(d1, constant.RuleManagerContractAddr, "RegisterRule", pb.String("chainD"), pb.String(data["chainD-rule"]), pb.String("http://rule")))[0], "register rule for chainD")
+		vote(w.Block(w.BVM(d1, constant.AppchainMgrContractAddr, "UpdateAppchain", pb.String("chainD"), pb.String("name-chainD"), pb.String("desc"), pb.Bytes(nil), pb.String(d1.Addr.String()), pb.String("r")))[0], "update chainD to one admin", true)
 	})
 }
 
